@@ -51,7 +51,9 @@ func genC04(r *Rng, tier string, idx int) *Plan {
 	attacker := 3
 	variants := []string{"", "", "", "reorder", "dup-state-forged-first", "dup-state-own-first", "dup-code", "case", "empty", "extra", "missing-code", "missing-state", "fragment"}
 	codeSrc := func() string { return r.Pick([]string{"own", "of:0", "of:1", "of:2", "forged"}) }
-	stateSrc := func() string { return r.Pick([]string{"own", "of:0", "of:1", "of:2", "forged", "near", "upper", "truncated", "extended"}) }
+	stateSrc := func() string {
+		return r.Pick([]string{"own", "of:0", "of:1", "of:2", "forged", "near", "upper", "truncated", "extended"})
+	}
 	cookie := func() string { return r.Pick([]string{"own", "of:0", "of:1", "held", "none", "garbage"}) }
 	crafted := func(b int) Op {
 		return Op{ID: nid(), Kind: "cb", B: b, S: cookie(), Args: map[string]string{"code": codeSrc(), "state": stateSrc(), "variant": r.Pick(variants)}}
